@@ -84,7 +84,7 @@ def run_stream(ctx, st):
         # the harness died (sanitizer abort, crash, hang): the first unanswered op is the suspect
         idx = len(impl)
         kind = "HANG" if rc in (3, 124) else "CRASH"
-        dis.append(dict(index=idx, op=st.ops[idx], impl="%s rc=%d %s" % (kind, rc, err[-600:]),
+        dis.append(dict(index=idx, op=st.ops[idx], impl="%s rc=%d %s" % (kind, rc, (err[:1500] + " ... " + err[-1500:]) if len(err) > 3000 else err),
                         model="(see model output)", crash=True))
         impl.append(kind)
         restarts += 1
@@ -179,6 +179,11 @@ def finish(ctx, mod, level_note):
     core.write_json(os.path.join(core.EVID, pid + ".json"), ev)
     for k in res.known:
         print(k)
+    # stale witnesses of earlier runs must not linger
+    if os.path.isdir(core.REPLAY):
+        for f in os.listdir(core.REPLAY):
+            if re.fullmatch(re.escape(pid) + r"-\d+\.json", f):
+                os.remove(os.path.join(core.REPLAY, f))
     if res.violations:
         for n, v in enumerate(res.violations):
             path = os.path.join(core.REPLAY, "%s-%d.json" % (pid, n))
@@ -203,6 +208,10 @@ def check_property(pid, tier, seed):
         from . import translate
         tinfo = translate.run_all()
         res.extra["translator"] = tinfo
+        for name, inf in tinfo.items():
+            if isinstance(inf, dict) and "extractor_shape_changed" in inf and name in getattr(mod, "EXTRACTORS", []):
+                emit_violation(ctx, "translator", "%s no longer recognises its source region: %s" % (name, inf["extractor_shape_changed"]),
+                               dict(failing_input=None, broken="translator " + name))
         # 3. prove
         lean_mod = "PcProps." + pid
         from . import gendriver
